@@ -259,7 +259,22 @@ func zzConfine(kind int) {
 	case 13:
 		// a view of the view obtained with the path under test: nothing
 		// outside the original view's root may be reachable through it
+		// (the view itself has been used with the same path strings before:
+		// nothing remembered for the view may be served to the view of it)
+		view.ReadFile("x")
+		view.IsExist("x")
 		sub, err := view.Filespace(p)
+		if err == nil && len(segs) > 0 && inside.Find(segs) != nil && inside.Find(segs).Dir {
+			// the sub-view is rooted at the (empty) directory d of the view:
+			// the view's x is outside ITS root
+			d, rerr := sub.ReadFile("x")
+			nd.Assert(rerr != nil || !bytes.Equal(d, []byte("i")), "C03/"+name+"/subview-reads-parent-view-node")
+			nd.Assert(!sub.IsExist("x"), "C03/"+name+"/subview-reads-parent-view-node")
+			if sub.WriteFile("x", []byte("w"), filesystem.DefaultUnixFileMode) == nil {
+				back, berr := view.ReadFile("x")
+				nd.Assert(berr == nil && bytes.Equal(back, []byte("i")), "C03/"+name+"/subview-writes-parent-view-node")
+			}
+		}
 		if err == nil {
 			for _, q := range []string{"g", "io/y", "y", "i/x"} {
 				d, err := sub.ReadFile(q)
